@@ -8,4 +8,6 @@ CONSTANTS
   AllowSplit = TRUE
   StartCached = FALSE
   MarkBeforePut = FALSE
+  AllowReplace = FALSE
+  DelBeforeAvail = TRUE
 INVARIANTS NoPanic OneEstablisher EstablisherOnlyWhileUnavailable StableEnd
